@@ -1,4 +1,4 @@
-import MontePyVerif.Lemmas.GeometrySwitch
+import MontePyVerif.Lemmas.GeometryLevels
 /-! # C02 — a cell's geometry keeps its Boolean meaning through read, edit and write
 
 Spec: `Spec/Geometry.lean` (`denote`: one-pass lexer + stack evaluator, MCNP's rules).
@@ -285,13 +285,28 @@ theorem C02_history_write (h : HS) (ops : List Op) (h' : HS)
 /-- **C02_update_ready.** From every well-formed tree (`wf` = DESIGN's `HS.WF`: nothing is asked of the links, nodes may
     be missing) `HalfSpace._update_values` — `_ensure_has_nodes`, `_link_child`, `_end_trailing_comment`,
     `_end_comments_in_parentheses`, then `_update_node` everywhere — establishes the state `ready`. -/
-theorem C02_update_ready (c : Nat) (h : HS) (hw : wf h = true) : ready (updateValues c h).1 = true :=
-  (update_ready _ (ensure_linked c h hw).1).1
+theorem C02_update_ready (c : Nat) (h : HS) (hw : wf h = true) : ready (updateValues c h).1 = true := by
+  rw [updateValues_eq_once c h hw]
+  exact (update_ready _ (ensure_linked c h hw).1).1
+
+/-- **C02_levels_once.** `_update_values` as the code runs it — level by level, `_ensure_has_nodes` (hence
+    `_link_child`) once more on every level — gives exactly what one `_ensure_has_nodes` and `_update_node` everywhere
+    give, on every well-formed tree: re-linking a subtree that was just linked changes nothing (`ensure_idem`). A
+    change that makes a level *skip* its link step is therefore a different function on histories where a link is
+    stale (write; edit an inner node; write). -/
+theorem C02_levels_once (c : Nat) (h : HS) (hw : wf h = true) : updateValues c h = updateOnce c h :=
+  updateValues_eq_once c h hw
+
+/-- sufficiency of the fuel of `updateLevels` -/
+theorem C02_levels_fuel (f c : Nat) (h : HS) (hw : wf h = true) (hf : h.height < f) :
+    updateLevels f c h = updateValues c h :=
+  updateLevels_fuel f c h hw hf
 
 /-- `_update_values` does not change the region of the tree. -/
 theorem C02_update_meaning (c : Nat) (h : HS) (hw : wf h = true) (ρ : Env) :
-    (updateValues c h).1.eval ρ = h.eval ρ :=
-  ((update_ready _ (ensure_linked c h hw).1).2.2.trans (ensure_linked c h hw).2).ev ρ
+    (updateValues c h).1.eval ρ = h.eval ρ := by
+  rw [updateValues_eq_once c h hw]
+  exact ((update_ready _ (ensure_linked c h hw).1).2.2.trans (ensure_linked c h hw).2).ev ρ
 
 /-- **C02_write_meaning_wf (DESIGN's C02_write_meaning).** For every well-formed tree, whatever its size and
     history: the text written after `_update_values` is well-formed MCNP geometry and denotes the Boolean function of
